@@ -283,6 +283,12 @@ func init() {
 	}
 
 	n["time.initLocal"] = func(in *Interp, fr *frame, a []Value) Value { return nil }
+	intrinsics["verifSettle"] = func(in *Interp, fr *frame, a []Value) Value {
+		for i := 0; i < 64 && in.pickNext(in.co.current) != nil; i++ {
+			in.yieldUntil(nil)
+		}
+		return nil
+	}
 	intrinsics["verifPollContexts"] = func(in *Interp, fr *frame, a []Value) Value { in.ctxPollForeign(fr); return nil }
 	// verifWait yields to the other goroutines; false when none of them can run
 	intrinsics["verifWait"] = func(in *Interp, fr *frame, a []Value) Value {
@@ -334,4 +340,21 @@ func init() {
 	}
 	nativeTable["go.opentelemetry.io/otel.GetMeterProvider"] = prov("meterProvider")
 	nativeTable["go.opentelemetry.io/otel.GetTracerProvider"] = prov("tracerProvider")
+}
+
+func init() {
+	n := nativeTable
+	// tickers never fire on their own in the model
+	n["time.NewTicker"] = func(in *Interp, fr *frame, a []Value) Value {
+		tt := in.world.namedType("time", "Ticker")
+		c := in.newCell(tt)
+		in.nextID++
+		ch := &ChanV{id: in.nextID, cap: 1, et: in.world.namedType("time", "Time")}
+		in.store(PtrV{C: c.Kids[0]}, tt.Underlying().(*types.Struct).Field(0).Type(), ch)
+		return PtrV{C: c}
+	}
+	n["(*time.Ticker).Stop"] = func(in *Interp, fr *frame, a []Value) Value { return nil }
+	n["(*time.Timer).Stop"] = func(in *Interp, fr *frame, a []Value) Value { return in.st.True }
+	n["runtime.NumCPU"] = func(in *Interp, fr *frame, a []Value) Value { return in.st.Const(4, 64) }
+	n["runtime.Gosched"] = func(in *Interp, fr *frame, a []Value) Value { in.Yield(); return nil }
 }
